@@ -244,7 +244,8 @@ static srtp_err_status_t srtp_cryptex_unprotect_init(
     bool *inplace,
     size_t *enc_start)
 {
-    if (stream->use_cryptex && hdr->x == 1) {
+    if (stream->use_cryptex && (stream->rtp_services & sec_serv_conf) &&
+        hdr->x == 1) {
         uint16_t profile = srtp_get_rtp_xtn_hdr_profile(hdr, srtp);
         *inuse = profile == cryptex_one_byte_profile ||
                  profile == cryptex_two_byte_profile;
